@@ -2,6 +2,7 @@
 From Coq Require Import List Bool Arith ZArith.
 From HV Require Import Ord Sprout Tree TreeLemmas TreeInv TreeRun.
 From HV Require Import DriverPrim Driver DriverFacts GenDriver GenEquivDriver DriverCode.
+From HV Require Import Ctor GenCtor GenEquivCtor.
 Import ListNotations.
 
 (* last_round s = (participants, sprouted): the demes that existed, were active and non-leaf when the most recent round
@@ -89,3 +90,27 @@ Proof. vm_compute. eexists. split; [reflexivity|]. split; reflexivity. Qed.
 Theorem C18_translated_code_hibernation c fuel n evs s : 1 <= height c -> code_moment c fuel n evs s -> HIB c s.
 Proof. exact (code_moment_hibernation c fuel n evs s). Qed.
 Print Assumptions C18_translated_code_hibernation.
+
+(* ---------------------------------------------------------------- the same for the TRANSLATED constructors.
+   Gen/GenCtor.v is regenerated on every check from AbstractDeme.__init__, the __init__ of EADeme, DEDeme, SHADEDeme, CMADeme, LocalDeme,
+   LHSDeme, SobolDeme (+ the run() the two samplers call), Individual.__init__ / evaluate / evaluate_population / create_population,
+   init_from_config and DemeTree.__init__ (hv/translate/ctor_py.py); `ctor_ok lvl started local o pop`: the constructor built the deme
+   `fresh_deme lvl started n` the machine's sprouting step assumes, its history holding exactly the start population pop. *)
+(* a deme is created awake: AbstractDeme.__init__ sets _hibernating = False and no subclass constructor touches it *)
+Theorem C18_translated_ctor_awake lvl started seed pop_size : 1 <= pop_size ->
+  Forall (fun o => exists d, o = Some d /\ d_hib d = false)
+    [built (gen_EADeme_init pop_size (gen_init_args lvl started seed)) false; built (gen_DEDeme_init pop_size (gen_init_args lvl started seed)) false;
+     built (gen_SHADEDeme_init pop_size (gen_init_args lvl started seed)) false; built (gen_CMADeme_init pop_size (gen_init_args lvl started seed)) false;
+     built (gen_LHSDeme_init pop_size (gen_init_args lvl started seed)) false; built (gen_SobolDeme_init pop_size (gen_init_args lvl started seed)) false;
+     built (gen_LocalDeme_init (gen_init_args lvl started seed)) true].
+Proof.
+  intros H. repeat constructor.
+  - destruct (EADeme_ctor_ok lvl started seed pop_size H) as (A & _). eauto.
+  - destruct (DEDeme_ctor_ok lvl started seed pop_size H) as (A & _). eauto.
+  - destruct (SHADEDeme_ctor_ok lvl started seed pop_size H) as (A & _). eauto.
+  - destruct (CMADeme_ctor_ok lvl started seed pop_size) as (A & _). eauto.
+  - destruct (LHSDeme_ctor_ok lvl started seed pop_size) as (A & _). eauto.
+  - destruct (SobolDeme_ctor_ok lvl started seed pop_size) as (A & _). eauto.
+  - destruct (LocalDeme_ctor_ok lvl started seed) as (A & _). eauto.
+Qed.
+Print Assumptions C18_translated_ctor_awake.
